@@ -118,9 +118,11 @@ func (sk *SpaceKeeper) spacePlotter() {
 			return
 		}
 		sk.stateLock.Unlock()
+		verifGate(sk, "step1.done")
 
 		// Step 2: plot space (wait for finishing)
 		ws.Plot()
+		verifGate(sk, "plot.returned")
 
 		// Step 3: change workSpace state
 		sk.stateLock.Lock()
@@ -173,13 +175,16 @@ func (sk *SpaceKeeper) spacePlotter() {
 			}
 
 			qws := sk.queue.PopItem()
+			verifGate(sk, "popped")
 			killMonitorCh := make(chan struct{}, 1)
 			wg.Add(1)
 			go monitor(qws.ws, killMonitorCh)
 			plotSpace(qws)
 			close(killMonitorCh)
+			verifGate(sk, "space.done")
 		}
 
+		verifGate(sk, "idle")
 		select {
 		case <-sk.quit:
 			wg.Wait()
